@@ -201,7 +201,7 @@ func GenConfig(t *sim.Tape, o GenOpts) Config {
 
 // ---------------------------------------------------------------- data shapes
 
-var ShapeNames = []string{"zeros", "text", "random", "runs", "skewed", "rare+dominant", "smallalpha", "utf8", "dna", "exe", "wav", "bmp", "numeric", "mixed", "base64", "periodic"}
+var ShapeNames = []string{"zeros", "text", "prose", "random", "runs", "skewed", "rare+dominant", "smallalpha", "utf8", "dna", "exe", "wav", "bmp", "numeric", "mixed", "base64", "periodic"}
 
 var words = strings.Fields(`the of and to in is was that for it with as his on be at by had not are but from or have an they which one you were her all she there would their we him been has when who will more no if out so said what up its about into than them can only other new some could time these two may then do first any my now such like our over man me even most made after also did many before must through back years where much your way well down should because each just those people how too little state good very make world still own see men work long get here between both life being under never day same another know while last might us great old year off come since against go came right used take three`)
 
@@ -227,6 +227,46 @@ func GenData(shape string, n int, seed uint64) []byte {
 				b = append(b, ',', ' ')
 			case 2:
 				b = append(b, '\n')
+			default:
+				b = append(b, ' ')
+			}
+		}
+	case "prose":
+		// text with many words that are in no static dictionary (pseudo-words from syllables,
+		// identifiers, numbers) mixed with common words, sentence structure and line breaks
+		syl := []string{"ka", "zor", "mi", "ben", "tu", "ral", "she", "qui", "vor", "an", "del", "pho", "gra", "xen", "lum", "tis", "wy", "ock", "ez", "ump"}
+		var lex []string
+		for i := 0; i < 300+r.Intn(3000); i++ {
+			w := ""
+			for k := 0; k < 1+r.Intn(4); k++ {
+				w += syl[r.Intn(len(syl))]
+			}
+			lex = append(lex, w)
+		}
+		for len(b) < n {
+			var w string
+			switch r.Intn(10) {
+			case 0, 1, 2, 3:
+				w = words[r.Intn(len(words))]
+			case 4:
+				w = fmt.Sprintf("%s_%d", lex[r.Intn(len(lex))], r.Intn(100))
+			default:
+				// zipf-like reuse of the private lexicon
+				w = lex[(r.Intn(len(lex))*r.Intn(len(lex)))/len(lex)]
+			}
+			if r.Intn(9) == 0 {
+				w = strings.ToUpper(w[:1]) + w[1:]
+			}
+			b = append(b, w...)
+			switch r.Intn(16) {
+			case 0:
+				b = append(b, '.', ' ')
+			case 1:
+				b = append(b, ',', ' ')
+			case 2:
+				b = append(b, '\n')
+			case 3:
+				b = append(b, '.', '\r', '\n', '\r', '\n')
 			default:
 				b = append(b, ' ')
 			}
